@@ -105,13 +105,14 @@ Theorem C23_add_o2m : forall loaded x rows sd, Inv rows sd -> loaded x = true ->
 Proof. exact do_add_o_spec. Qed.
 Print Assumptions C23_add_o2m.
 
-(* remove on a one-to-many collection with the tail skipped (proposed repair; the code as it is double-counts: Findings/C23.v) *)
-Theorem C23_remove_o2m_repaired : forall loaded x rows sd, Inv rows sd -> loaded x = true ->
+(* remove on a one-to-many collection (since /repo 11753a1 the SetData is updated once, through reverse_remove; do_remove_o, the model of
+   the double bookkeeping before that commit, is kept in Model/C23Load.v only so that a revert is recognised) *)
+Theorem C23_remove_o2m : forall loaded x rows sd, Inv rows sd -> loaded x = true ->
   (In x rows -> In x (sd_items sd) \/ In x (sd_removed sd)) ->
   Inv rows (do_remove_o_fixed loaded x rows sd) /\
   (forall y, In y (abstract rows (do_remove_o_fixed loaded x rows sd)) <-> In y (abstract rows sd) /\ y <> x).
 Proof. exact do_remove_o_fixed_spec. Qed.
-Print Assumptions C23_remove_o2m_repaired.
+Print Assumptions C23_remove_o2m.
 
 (* hence: two consistent views of the same abstract collection, whatever loading paths (and flushes) produced them, give the
    same iteration contents, len, count, membership answers and is_empty *)
